@@ -45,7 +45,7 @@ def gen(rng, tier):
     for name, keep in [("c01", ("count:", "malformed", "final-word")), ("c14", ("boundary", "malformed", "mutated", "for_index", "maybe-out-of-range")),
                        ("c15", ("boundary-scalars", "v-sweep", "length:", "mutated", "malformed", "utf8-straddle")), ("c13", ("malformed", "structure", "fuzz-number", "missing-field")),
                        ("c09", ("int-boundary", "bytesN", "wrong-kind", "structural", "huge-declared-size", "undefined-unreached", "fixed-array")), ("c20", ("repeated", "foreign", "wrong-type", "no-domain-type")),
-                       ("c11", ("sig.v",)), ("c19", ("malformed", "mutated")), ("c12", ("fail", "L:unsupported", "bad-length", "short-read", "vanity-fail"))]:
+                       ("c11", ("sig.v", "chain:2^25", "bit-boundary")), ("c19", ("malformed", "mutated")), ("c12", ("fail", "L:unsupported", "bad-length", "short-read", "vanity-fail"))]:
         mod = importlib.import_module("vlib.props." + name)
         for c in mod.gen(rng, "quick"):
             if any(t.startswith(k) for t in c.tags for k in keep) and rng.random() < frac:
@@ -84,6 +84,14 @@ def gen(rng, tier):
     for r, s, v in [(0, 1, 27), (1, 0, 27), (N, 1, 27), (1, N, 28), (2 ** 256 - 1, 2 ** 256 - 1, 28), (1, 1, 0), (1, 1, 255), (N - 1, N - 1, 28)]:
         for pre in ("0x", ""):
             cases.append(Case("cli.hash_tx %s %s" % (hx(j), hx(pre + "%064x%064x%02x" % (r, s, v))), tags=("cli-signature",), runner="cli", meta={}))
+    # the largest chain ids with a chosen signature of either parity: v = 35 + 2c + parity is computed in 256 bits, so the
+    # last admissible chain id differs by parity only in theory — whatever the bound is, beyond it is an error, not a panic
+    for c in [2 ** 255 - 22 + i for i in range(0, 8)] + [2 ** 255, 2 ** 256 - 36, 2 ** 256 - 18, 2 ** 256 - 17, 2 ** 256 - 1, 2 ** 128 - 1, 2 ** 127, 2 ** 64]:
+        for kind in ("legacy", "eip2930", "eip1559"):
+            jc, _ = txgen.rand_tx(rng, kind=kind, chain=c, spellings=["dec-str", "hex-str"])
+            for v in (27, 28):
+                cases.append(Case("cli.hash_tx %s %s" % (hx(jc), hx("0x%064x%064x%02x" % (rng.randrange(1, N), rng.randrange(1, N // 2), v))), tags=("cli-signature", "chain-boundary"), runner="cli", meta={}))
+            cases.append(Case("cli.hash_tx %s none" % hx(jc), tags=("cli-signature", "chain-boundary"), runner="cli", meta={}))
     for mb in ("é", "€", "😀"):
         w = len(mb.encode())
         for k in list(range(0, 8)) + list(range(60, 68)) + list(range(120, 131 - w)):
